@@ -169,6 +169,12 @@ def check(tier):
         for n2 in names:
             inputs.append({"family": "decl", "kind": "src", "text": f"module a {{ import b.{n1.split('.')[-1]} }}\nmodule b {{ import a.{n2.split('.')[-1]} }}\nfrom a.{n1.split('.')[-1]}"})
             inputs.append({"family": "decl", "kind": "src", "text": f"import {n1} as {n2.split('.')[-1]}\nimport {n2} as {n1.split('.')[-1]}\nfrom t | select {{{n1.split('.')[-1]}}}"})
+    for chain in (("m", "a", "b", "a"), ("m", "a", "b", "c", "b"), ("m", "n", "a", "a"), ("a", "b", "c", "a"), ("m", "a", "m"), ("m", "a", "b", "c", "d", "b")):
+        mods = []
+        for i_ in range(len(chain) - 1):
+            if chain[i_] not in [m_[0] for m_ in mods]:
+                mods.append((chain[i_], chain[i_ + 1]))
+        inputs.append({"family": "decl", "kind": "src", "text": "\n".join(f"module {a_} {{ import {b_}.x }}" for a_, b_ in mods) + f"\nfrom {chain[0]}.x"})
     for body in ("f a", "g a", "(f a) + 1", "a | f", "f (f a)", "case [a > 0 => f (a - 1), true => 0]"):
         inputs.append({"family": "decl", "kind": "src", "text": f"let f = a -> {body}\nlet g = a -> f a\nfrom t | derive {{y = f 1}}"})
     for r1, r2 in (("r", "r"), ("s", "r"), ("t", "r"), ("r | take 1", "r")):
@@ -274,10 +280,14 @@ def check(tier):
     # a family is only followed up to the first size that died
     events += gevents
     byid = {x["id"]: x for x in inputs + gin}
+    msg_of = {}
     # normalise event shapes for TLC
     norm = []
     for e in events:
         if e["event"] == "Input":
+            for rr in e["results"]:
+                if rr.get("outcome") == "panic":
+                    msg_of[(e["id"], rr["stage"])] = rr.get("msg", "")
             norm.append({"event": "Input", "id": e["id"], "family": e.get("family") or "", "results": e["results"], "us": e["us"], "how": "", "n": 0})
         elif e["event"] == "Died":
             norm.append({"event": "Died", "id": e["id"], "family": e.get("family") or "", "results": [], "us": 0, "how": e["how"], "n": 0})
@@ -303,10 +313,10 @@ def check(tier):
             x = byid.get(r[1], {})
             fam = x.get("family", "")
             sig = {"what": "panic" if r[2] not in ("growth", "crashed", "timed-out") else r[2], "stage": r[2], "site": r[3], "panic_site": r[3], "family": fam.split(":")[0],
-                   "family_detail": fam, "src": x.get("text", "")[:2000], "non_ascii": any(ord(ch) > 127 for ch in x.get("text", ""))}
+                   "family_detail": fam, "msg": msg_of.get((r[1], r[2]), ""), "src": x.get("text", "")[:2000], "non_ascii": any(ord(ch) > 127 for ch in x.get("text", ""))}
             panics_by_site[(r[2], r[3], fam)] = panics_by_site.get((r[2], r[3], fam), 0) + 1
             rep.violation({"property": "C12", "kind": sig["what"], "stage": r[2], "panic_site": r[3], "family": fam, "input_kind": x.get("kind"),
-                           "input": x.get("text", "")[:4000]}, sig)
+                           "input": x.get("text", "")[:4000], "panic_message": msg_of.get((r[1], r[2]), "")}, sig)
     fams = {}
     for x in inputs + gin:
         fams[x["family"].split(":")[0]] = fams.get(x["family"].split(":")[0], 0) + 1
